@@ -12,6 +12,8 @@ import (
 	"fmt"
 
 	"gitlab.com/gomidi/midi/v2"
+	cc "gitlab.com/gomidi/midi/v2/internal/verifh/conccases"
+	cp "gitlab.com/gomidi/midi/v2/internal/verifh/concpairs"
 	"gitlab.com/gomidi/midi/v2/internal/verifh/engine"
 	"gitlab.com/gomidi/midi/v2/smf"
 )
@@ -399,6 +401,9 @@ func constructed() {
 func main() {
 	ctx = engine.Start("C08", "exploration")
 	if ctx.ReplayPath != "" {
+		if cp.Replay(ctx, ctx.LoadReplay(), "classification", cc.Classify()) {
+			ctx.Finish("replay")
+		}
 		m := ctx.LoadReplay()
 		b := engine.UnHex(m["message"].(string))
 		if m["flavour"] == "midi" {
@@ -410,6 +415,10 @@ func main() {
 	}
 	ctx.Assume("non-nil out-parameters are passed (the statement is about byte strings, not argument handling)")
 	ctx.Assume("categories are tested through Is(category); GetNoteStart/GetNoteEnd/GetChannel are derived views and only required not to panic")
+	ctx.Jobs("concurrent", 1, func(int) {
+		cp.Litmus(ctx)
+		cp.Check(ctx, "classification", cc.Classify())
+	})
 	ctx.Jobs("short", 256, func(j int) { short(j) })
 	ctx.Jobs("long", len(alpha12), func(j int) { long(j) })
 	ctx.Jobs("meta-shapes", 16, func(j int) { metaShapes(j) })
